@@ -5,6 +5,7 @@ package c01
 import (
 	"context"
 	"fmt"
+	"os"
 	"sort"
 	"strings"
 	"testing"
@@ -67,7 +68,7 @@ func genCase(rt *rapid.T) Case {
 		case 16:
 			op = Op{K: "sync", A: rapid.IntRange(0, n-1).Draw(rt, "r"), B: rapid.IntRange(0, n-1).Draw(rt, "p")}
 		case 17:
-			op = Op{K: "reopen", A: rapid.IntRange(0, n-1).Draw(rt, "r")}
+			op = Op{K: rapid.SampledFrom([]string{"reopen", "blackout", "blackout", "request", "request", "request"}).Draw(rt, "k17"), A: rapid.IntRange(0, n-1+6).Draw(rt, "r"), B: rapid.SampledFrom([]int{0, 0, 0, 1, 2}).Draw(rt, "fate")}
 		default:
 			// a burst: one replica edits twice, another edits concurrently (fork), then a snapshot
 			op = Op{K: "fork", A: rapid.IntRange(0, n-1).Draw(rt, "r"), B: rapid.IntRange(0, n-1).Draw(rt, "r2"), C: rapid.IntRange(0, 2).Draw(rt, "snapAfter")}
@@ -213,7 +214,32 @@ func run(c Case) (out vstat.Outcome, err error) {
 		case "deliver":
 			err = s.Step(op.A, treesim.Fate(op.B), 0)
 		case "truncate":
-			err = s.Step(op.A, treesim.Deliver, op.B)
+			// the op.A-th response stream in flight, cut after op.B batches
+			idx, seen := -1, 0
+			for j, m := range s.InFlight {
+				if m.Kind == treesim.ResponseStream {
+					if idx < 0 || seen <= op.A%3 {
+						idx = j
+					}
+					seen++
+				}
+			}
+			if idx >= 0 {
+				err = s.Step(idx, treesim.Deliver, op.B)
+			}
+		case "blackout":
+			// lose the op.A+1 oldest messages (a peer was offline)
+			for k := 0; k <= op.A && len(s.InFlight) > 0 && err == nil; k++ {
+				err = s.Step(0, treesim.Drop, 0)
+			}
+		case "request":
+			// deliver the oldest request / response stream first (they queue behind head updates)
+			for j, m := range s.InFlight {
+				if m.Kind != treesim.HeadUpdate {
+					err = s.Step(j, treesim.Fate(op.B), 0)
+					break
+				}
+			}
 		case "join":
 			if s.Replicas[op.A%c.N].Tree == nil && s.Replicas[op.B%c.N].Tree != nil {
 				err = s.Fetch(op.A%c.N, op.B%c.N, op.C)
@@ -221,6 +247,9 @@ func run(c Case) (out vstat.Outcome, err error) {
 		case "sync":
 			err = s.SyncWithPeer(op.A%c.N, op.B%c.N)
 		case "reopen":
+			if s.Replicas[op.A%c.N].Tree == nil {
+				break
+			}
 			if err = s.Replicas[op.A%c.N].Reopen(); err != nil {
 				err = fmt.Errorf("replica %d could not be reopened from its own storage: %v", op.A%c.N, err)
 			} else {
@@ -235,7 +264,7 @@ func run(c Case) (out vstat.Outcome, err error) {
 		}
 	}
 	// ---- tail: drain, then one anti-entropy exchange per pair (generated order and initiator) ----
-	if err := s.Drain(5000); err != nil {
+	if err := s.Drain(20000); err != nil {
 		return out, err
 	}
 	if err := ck.safety("drain"); err != nil {
@@ -260,7 +289,7 @@ func run(c Case) (out vstat.Outcome, err error) {
 		if err := s.SyncWithPeer(a, b); err != nil {
 			return out, fmt.Errorf("anti-entropy %d->%d: %v", a, b, err)
 		}
-		if err := s.Drain(5000); err != nil {
+		if err := s.Drain(20000); err != nil {
 			return out, err
 		}
 		if err := ck.safety(fmt.Sprintf("anti-entropy %d->%d", a, b)); err != nil {
@@ -327,6 +356,11 @@ func run(c Case) (out vstat.Outcome, err error) {
 	vstat.Count("edits", int64(edits))
 	vstat.Count("deliveries", int64(cnt["delivered-head-update"]+cnt["delivered-request"]+cnt["delivered-response-stream"]))
 	vstat.Count("handler_errors", int64(cnt["handler-error"]))
+	if os.Getenv("VERIF_DEBUG") != "" {
+		for _, e := range s.HandlerErrs {
+			fmt.Println("HANDLER-ERR:", e)
+		}
+	}
 	return out, nil
 }
 
